@@ -94,6 +94,9 @@ let () = run_lines (fun toks ->
      | "ruint_to_mpz_into" -> sz (Model.ruint_to_mpz_intoZ k a.(0) a.(1))
      | "rint_to_mpz_into" -> sz (Model.rint_to_mpz_intoZ k a.(0) a.(1))
      | "smod_n1" -> h (Model.smod_n1Z thr k a.(0) a.(1))
+     | "shl_cnt" -> h (Model.shl_cntZ k a.(0) a.(1))
+     | "shr2_cnt" -> h (Model.shr_cntZ k a.(0) a.(1)) ^ " " ^ h (Model.sshrZ k a.(0) a.(1))
+     | "addmul_w" -> h (Model.addmul_wZ k a.(0) a.(1) a.(2))
      | "sizes" -> p2 (Model.sizesZ k)
      | "display_dec" -> String.concat "" (List.map sz (Model.display_decZ thr k a.(0)))
      | _ -> "UNKNOWN-OP")
